@@ -61,4 +61,11 @@ PROPS = {
                 "needs the pastel_verif hook (DistanceResult::verif_new/verif_update)"
         ]
 },
+    "C08": {
+        "rule": "exhaustive: all add-stop histories of length <= 3 (quick) / 4 over positions {0,.25,.5,.5,1,-3,7,NaN} x 3 colours with dump and 9 sample points each; all permutations of random distinct-position histories; random histories up to 40 stops with arbitrary float positions; non-trivial = a repeated or out-of-order position",
+        "trust": [
+                "stops are read from the Debug rendering of ColorScale",
+                "pastel gradient (CLI) is exercised by the C19/C02 CLI runs"
+        ]
+},
 }
